@@ -555,6 +555,19 @@ def _grid_chunk(chunk, seed):
     res = common.Result()
     for (kind, size) in chunk:
         cat = catalogue(size, size <= 4)
+        if 56 <= size <= 300:
+            # real nodes have segment and cipher-block boundaries the boundary catalogue knows nothing of: a lattice of
+            # first/last positions over the whole file (steps 7 and 5 are coprime to the segment sizes 12, 32, 100)
+            step_a, step_b = (7, 5) if size <= 100 else (23, 19)
+            seen = set(h for h in cat if h is not None)
+            for a in range(0, size, step_a):
+                for b in range(a, size, step_b):
+                    h = b"bytes=%d-%d" % (a, b)
+                    if h not in seen:
+                        cat.append(h)
+                        seen.add(h)
+                cat.append(b"bytes=%d-" % a)
+                cat.append(b"bytes=-%d" % (a + 1))
         for header in cat:
             if header is not None and (b"\n" in header or b"\r" in header):
                 continue            # cannot be sent as one header line through a real HTTP parser
